@@ -12,7 +12,7 @@ EXPLANATION = (
     "its keys, dispatch looks ids up through _unpack_weakref and raises for unknown ids; an object is auto-proxied only under a "
     "test that it is currently in its daemon's registry (or unregister clears the marks on every deleting path); the "
     "replacement hook is installed for every serializer and weak registration stores a weakref plus a finalizer; every registry "
-    "value that is used as an object is unwrapped first. Not decided: identity of the object reached through a proxy, GC timing."
+    "value that is used as an object is unwrapped first; by-value serialisation neutralises the daemon mark by assignment. Not decided: identity of the object reached through a proxy, GC timing."
 )
 
 REG = "objectsById"
